@@ -1,5 +1,29 @@
-"""Which units exist.  Verus units are modules with a UNIT; Kani units are added below."""
-from units import u2_send, u3_recv, u23_roundtrip, u7_ipc, u6_router
+"""Which units exist.  Verus units are modules with a UNIT; Kani units are defined below."""
+from units import u2_send, u3_recv, u23_roundtrip, u7_ipc, u6_router, u4_conv
+from vf.kani import KaniUnit
 
-VERUS_UNITS = [u2_send.UNIT, u3_recv.UNIT, u23_roundtrip.UNIT, u7_ipc.UNIT, u6_router.UNIT]
-KANI_UNITS = []
+VERUS_UNITS = [u2_send.UNIT, u3_recv.UNIT, u23_roundtrip.UNIT, u7_ipc.UNIT, u6_router.UNIT, u4_conv.UNIT]
+
+K_LEDGER = KaniUnit(
+    name="k_ledger", harness_file="kani/harness_unix.rs", append_to="src/platform/unix/mod.rs",
+    harnesses=["ledger_connect", "ledger_channel", "ledger_receiver_consume", "ledger_sender_clones",
+               "ledger_opaque_channel", "ledger_shared_memory_drop"],
+    props=["C11", "C03", "C16", "C04"],
+    id_props=[("kani.ledger.sender_", ["C11", "C03"]), ("kani.ledger.opaque_", ["C11", "C16"]),
+              ("kani.ledger.consume", ["C11", "C04"]), ("kani.ledger.moved_", ["C11", "C04"]), ("kani.ledger.consumed_", ["C11", "C04"]),
+              ("kani.ledger.", ["C11"])],
+    safety_props=["C11"],
+    assumptions=["socket/socketpair return fresh descriptors or fail; close succeeds on an open descriptor; connect(2) fails nondeterministically",
+                 "descriptor ledger of 8 slots (a harness creates at most 2)"],
+)
+K_CMSG = KaniUnit(
+    name="k_cmsg", harness_file="kani/harness_unix.rs", append_to="src/platform/unix/mod.rs",
+    harnesses=["cmsg_recv_blocking", "cmsg_recv_nonblocking", "cmsg_recv_timeout", "conv_channel_is_closed"],
+    props=["C10", "C03", "C11"],
+    id_props=[("kani.cmsg.recvmsg_cmsg_cloexec", ["C11"]), ("kani.cmsg.result_mapping", ["C10", "C03"]),
+              ("kani.conv.", ["C03", "C12"]), ("kani.cmsg.", ["C10"])],
+    safety_props=["C10"],
+    assumptions=["fcntl(F_SETFL) sets exactly the O_NONBLOCK bit it is given or fails; recvmsg and poll return ANY value",
+                 "Duration ranges over all (secs: u64, nanos < 1e9)"],
+)
+KANI_UNITS = [K_LEDGER, K_CMSG]
